@@ -7,6 +7,7 @@ from harness import c16_lib as L
 from harness import c16_lanczos as LZ
 from harness import c16_other as OT
 from harness import c16_api as API
+from harness import c16_reuse as RU
 
 PROP = 'C16'
 MODEL_MODULES = ['TenpyModel.Util.J', 'TenpyModel.C16.Lanczos']
@@ -49,6 +50,7 @@ PARTS = {
     'gs': (OT.eval_gs, OT.compare_gs),
     'ops': (OT.eval_ops, OT.compare_ops),
     'api': (API.eval_api, None),
+    'reuse': (RU.eval_reuse, None),
 }
 
 
@@ -63,6 +65,9 @@ def gen_cases(rng, n, exact_fraction=0.4):
         exact = rng.random() < exact_fraction
         if rng.random() < 0.12:
             cases.append(API.gen_case(rng))
+            continue
+        if rng.random() < 0.14:
+            cases.append(RU.gen_case(rng))
             continue
         if r < 0.34:
             cases.append(LZ.gen_case(rng, exact, evo=False))
@@ -100,9 +105,10 @@ def shrink_case(case, sigs):
     for key in list(cur['opts'].keys()):
         cand = json.loads(json.dumps(cur))
         cand['opts'].pop(key)
-        if cand['part'] in ('arnoldi',) and key in ('which', 'num_ev', 'N_max'):
+        sub = cand.get('sub', cand['part'])
+        if sub in ('arnoldi',) and key in ('which', 'num_ev', 'N_max'):
             continue
-        if cand['part'] == 'gmres' and key in ('N_max',):
+        if sub in ('gmres', 'arnoldi_evo') and key in ('N_max', 'res'):
             continue
         try:
             fails, _, _ = _eval(cand)
@@ -147,7 +153,8 @@ def run_cases(ctx, cases, use_model=True, procs=1):
     n_shrunk = 0
     for ci, (case, (fails, ls, info)) in enumerate(zip(cases, evals)):
         N = info.get('N') or 0
-        nontrivial = case['d'] >= 2 and (N >= 2 or case['part'] in ('gmres', 'gs', 'ops'))
+        nontrivial = case['d'] >= 2 and (N >= 2 or case['part'] in ('gmres', 'gs', 'ops')) \
+            and (case['part'] != 'reuse' or info.get('calls', 0) >= 2)
         res.note_case(case, nontrivial)
         res.count(f'part={case["part"]}.{case["mode"]}' + (f'.{case["scenario"]}' if case['part'] == 'api' else ''))
         res.count(f'd={case["d"] if case["d"] <= 8 else (str(case["d"] // 10 * 10) + "+")}')
@@ -170,6 +177,11 @@ def run_cases(ctx, cases, use_model=True, procs=1):
             res.count('arnoldi.ritz-pairs-checked' if not info.get('skipped') and not info.get('raised') else 'arnoldi.skipped-orthogonality-lost-in-reference')
         if case['part'] == 'gmres':
             res.count(f'gmres.data={info.get("data")}')
+        if case['part'] == 'reuse':
+            res.count(f'reuse.{case["kind"]}.calls-compared={info.get("calls", 0)}')
+            if case['kind'].startswith('lanczos'):
+                oo = LZ.defaults(case['opts'])
+                res.count(f'reuse.lanczos.reortho={bool(oo["reortho"])}.cache={"all" if oo["N_cache"] >= N else "partial"}')
         prop = [f for f in fails if f[0] == 'property']
         harness = [f for f in fails if f[0] == 'harness']
         for f in harness:
